@@ -9,6 +9,7 @@ open AbtemVerif AbtemVerif.Proto AbtemVerif.Prism AbtemVerif.Gen.Prism
    mincrop <w0> <w1> <px,py;px,py;…>                -> ok <cc0> <cc1> <s0> <s1> <c0,c1;…>
    windows <n0> <n1> <w0> <w1> <px,py;…>            -> ok <flat window>;<flat window>… | err <kind>
    expect <n0> <n1> <w0> <w1> <px,py>               -> ok <flat window>
+   bcrop <s0> <s1> <w0> <w1> <c0> <c1>              -> ok <flat window of the s0×s1 iota block> | err <kind>   (`batch_crop_2d`, one member)
    reducek <n0> <n1> <w0> <w1> <K> <px,py;…> <c,c,…;…> -> ok <flat window>;… : planes k = iota + 1000·k, integer coefficients per position
    phase <gx|gy|cu|px|py> <pi> <args…>              -> ok <rat>
    amp <interp> <npix>                              -> ok <rat>
@@ -66,6 +67,14 @@ def handle : List String → String
       | .ok ws => "ok " ++ ";".intercalate (ws.map flat)
       | .error e => s!"err {e}"
     | _, _, _, _, _, _, _ => "bad-op"
+  | ["bcrop", s0, s1, w0, w1, c0, c1] =>
+    match parseNat? s0, parseNat? s1, parseNat? w0, parseNat? w1, parseInt? c0, parseInt? c1 with
+    | some s0, some s1, some w0, some w1, some c0, some c1 =>
+      let block : List (List Int) := (List.range s0).map fun (i : Nat) => (List.range s1).map fun (j : Nat) => iota s1 i j
+      match batchCrop block (c0, c1) (w0, w1) with
+      | .ok b => s!"ok {flat b}"
+      | .error e => s!"err {e}"
+    | _, _, _, _, _, _ => "bad-op"
   | ["expect", n0, n1, w0, w1, ps] =>
     match parseNat? n0, parseNat? n1, parseNat? w0, parseNat? w1, pairs? ps with
     | some n0, some n1, some w0, some w1, some [p] =>
